@@ -93,8 +93,16 @@ func (t *vT) Skip(...any)             { t.skips++ }
 func (t *vT) Skipf(string, ...any)    { t.skips++ }
 func (t *vT) SkipNow()                { t.skips++ }
 func (t *vT) Name() string            { return t.name }
-func (t *vT) Error(a ...any)          { t.errs = append(t.errs, a...) }
-func (t *vT) Log(a ...any)            { t.logs = append(t.logs, a...) }
+func (t *vT) Error(a ...any)          { t.errs = append(t.errs, vOneCall(a)) }
+func (t *vT) Log(a ...any)            { t.logs = append(t.logs, vOneCall(a)) }
+
+// one item per call of Error/Log, however many arguments the call had
+func vOneCall(a []any) any {
+	if len(a) == 1 {
+		return a[0]
+	}
+	return strings.TrimSuffix(fmt.Sprintln(a...), "\n")
+}
 func (t *vT) Cleanup(f func())        { t.cleanups = append(t.cleanups, f) }
 
 func vhex(b []byte) string {
@@ -193,8 +201,11 @@ func (sb *vSandbox) writes(before, after map[string]vFileInfo) string {
 			ws = append(ws, "create:"+vhex([]byte(sb.virt(p))))
 			continue
 		}
-		if !bytes.Equal(a.content, b.content) || !a.mtime.Equal(b.mtime) || a.ino != b.ino {
+		if !bytes.Equal(a.content, b.content) {
 			ws = append(ws, "mod:"+vhex([]byte(sb.virt(p))))
+		} else if !a.mtime.Equal(b.mtime) || a.ino != b.ino {
+			// written (or replaced) with the bytes it already held
+			ws = append(ws, "touch:"+vhex([]byte(sb.virt(p))))
 		}
 	}
 	for p := range before {
@@ -348,6 +359,13 @@ func vWrittenForm(v any) []byte {
 	return b
 }
 
+// The default LAYOUT of a JSON snapshot (line width, indentation) is a parameter of the model: the theorems hold for every
+// width and every whitespace indentation, so the library's current defaults are read here and handed to the model. That
+// object members are SORTED by default is not layout: C14 says so ("under the default configuration"), it stays pinned.
+func vDefaultJSONLayout() (int, string, bool) {
+	return defaultPrettyJSONOptions.Width, defaultPrettyJSONOptions.Indent, true
+}
+
 // vJSONExtra encodes, for the model, the inputs of a JSON call: jdoc = the JSON text (text input as given, a Go value as
 // json.Marshal produced it), jms = the matcher specs, jopt = width:indent:sortkeys of the handle's DECLARED options.
 func vJSONExtra(j []byte, jok bool, doc []byte, o vOp, r *vRunner, effCfg *Config) string {
@@ -393,7 +411,7 @@ func vJSONExtra(j []byte, jok bool, doc []byte, o vOp, r *vRunner, effCfg *Confi
 	if len(ms) > 0 {
 		msS = strings.Join(ms, ";")
 	}
-	width, indent, sortKeys := 0, " ", true
+	width, indent, sortKeys := vDefaultJSONLayout()
 	c := effCfg
 	if o.H > 0 && o.H <= len(r.fresh) {
 		c = r.fresh[o.H-1]()
@@ -475,13 +493,13 @@ func vClassifyErr(e any) string {
 }
 
 func vClassifyLog(l any) string {
-	s := fmt.Sprint(l)
+	s := strings.ToLower(fmt.Sprint(l))
 	switch {
-	case strings.Contains(s, "Snapshot added"):
+	case strings.Contains(s, "added"):
 		return "added"
-	case strings.Contains(s, "Snapshot updated"):
+	case strings.Contains(s, "updated"):
 		return "updated"
-	case strings.Contains(s, "Snapshot skipped"):
+	case strings.Contains(s, "skipped"):
 		return "skipped"
 	case strings.Contains(s, "[warning]"):
 		return "warning"
